@@ -196,12 +196,15 @@ func (m *UWModel) Apply(e DEntry) string {
 			return ClConflict // a link to nothing cannot be created at all
 		}
 		// classify the target before anything else
-		if c := m.classifyLink(path, e.Link); c != ClOK {
-			return c
-		}
-		if ex != nil {
+		c := m.classifyLink(path, e.Link)
+		if ex != nil && (c == ClOK || c == ClLinkPhys) {
+			// the path is taken: creating the link fails before anything about
+			// where it would lead by way of other links can matter
 			ex.Unspec = true
 			return ClConflict
+		}
+		if c != ClOK {
+			return c
 		}
 		cur.TouchGen = m.Gen
 		cur.Kids[leaf] = &Node{Kind: 'l', Explicit: true, Target: e.Link, MtimeNs: e.MtimeNs, ExplGen: m.Gen}
